@@ -169,11 +169,16 @@ def run(ctx):
     ctx.sample({"trace_excerpt": traces[-1][10:16]})
     spec = os.path.join(R.MSPEC, "SmpiPrivTrace.tla")
     rej = R.validate_traces(ctx, spec, progs, [(i, t) for (i, ci), t in zip(jobs, traces)], chunk=40 if quick else 120)
-    for x in rej:
+    ctx.cov["rejections_first_pass"] = len(rej)
+    MAXCONF = 12     # re-run and report at most that many rejected executions (the others are counted)
+    ctx.cov["rejections_not_reexamined"] = max(0, len(rej) - MAXCONF)
+
+    def confirm(x):
         i, ci = jobs[x["run"]]
-        # confirm by re-running the same case
         t2 = run_one(ctx, "c%d_%d" % (i, ci), progs[i], txts[i], cfgs[ci][1])
-        rej2 = R.validate_traces(ctx, spec, progs, [(i, t2)], tag="re%d" % x["run"])
+        return t2, R.validate_traces(ctx, spec, progs, [(i, t2)], tag="re%d" % x["run"], nproc=1)
+    for x, (t2, rej2) in zip(rej[:MAXCONF], vlib.parallel_map(confirm, rej[:MAXCONF], nproc=6)):
+        i, ci = jobs[x["run"]]
         if not rej2:
             ctx.cov["unconfirmed_rejections"] = ctx.cov.get("unconfirmed_rejections", 0) + 1
             continue
